@@ -20,6 +20,7 @@ Families control handler identity along dispatch chains deliberately (three even
 shared wildcard handler) so that the recursion guard (finding F2) is only hit by the family meant to hit it.
 """
 import itertools
+import json
 import random
 
 
@@ -489,8 +490,10 @@ def sys_errors():
             return base + [['s', 2], ['raise', 'ce']]
         if kind == 'raise_chain':           # exception with __cause__ and __context__ chains
             return base + [['raise', 'chain']]
+        if kind == 'raise_to':              # TimeoutError raised by the handler's own code (finding G10, repaired)
+            return base + [['s', 1], ['raise', 'to']]
         return base + [['s', 2], ['raise', 'rt']]
-    for k1, k2, k3, sync2, child_kind, fw, par in itertools.product(kinds + ['raise_ce', 'raise_ce_after_sleep', 'raise_chain'], kinds + ['raise_ce', 'raise_chain'], ['ok', 'raise'], [False, True],
+    for k1, k2, k3, sync2, child_kind, fw, par in itertools.product(kinds + ['raise_ce', 'raise_ce_after_sleep', 'raise_chain', 'raise_to'], kinds + ['raise_ce', 'raise_chain'], ['ok', 'raise'], [False, True],
                                                                     ['none', 'ok', 'raise', 'raise_ce', 'raise_chain'], [False, True], [False, True]):
         if sync2 and k2 == 'raise_after_sleep':
             continue
@@ -551,9 +554,11 @@ def sys_redispatch():
 
 def sys_errors_par():
     out = []
-    for raise_at, c1_sleep, par, target, nsib, sync_c2 in itertools.product([1, 2, 4], [0, 3, 5], [True, False], ['b1', 'b2'], [1, 2], [False, True]):
+    for raise_at, c1_sleep, par, target, nsib, sync_c2, what in itertools.product([1, 2, 4], [0, 3, 5], [True, False], ['b1', 'b2'], [1, 2], [False, True], ['', 'to']):
+        if what == 'to' and (nsib == 2 or sync_c2):
+            continue
         scripts = {'HA': {'R': [['d', target, 'C'], ['a', 0], ['ret', 'i1']]},
-                   'HB': {'R': [['s', raise_at], ['raise']]},
+                   'HB': {'R': [['s', raise_at], ['raise', what] if what else ['raise']]},   # 'to': the handler itself raises TimeoutError (e.g. from an inner wait_for)
                    'HC': {'R': [['s', raise_at + 1], ['ret', 'exc']]},
                    'C1': {'C': [['s', c1_sleep]] if c1_sleep else []}, 'C2': {'C': [] if sync_c2 else [['y', 1]]},
                    'L': {'L': []}}
@@ -719,6 +724,49 @@ def sys_lock_wait():
     return out
 
 
+def sys_cancel_cleanup():
+    """C06 / C02 / C10 with handlers that need awaited clean-up after being cancelled (try / finally with awaits): whoever cancelled them
+    (their own timeout, a parent's timeout, stop()) has to wait until they are really done before anything else may start"""
+    out = []
+    for src, cl, nh, tgt, par in itertools.product(['own', 'parent', 'stop'], [150, 400], [1, 2], ['b1', 'b2'], [False, True]):
+        if src == 'own':
+            scripts = {'H1': {'R': [['cl', cl], ['s', 50]], 'L': [], 'M': []}, 'H2': {'R': [['s', 1]], 'L': [['s', 1]], 'M': []}}
+            events = {'R': {'timeout': 5}}
+        elif src == 'parent':
+            scripts = {'H1': {'R': [['d', tgt, 'C'], ['a', 0]], 'C': [['cl', cl], ['s', 50]], 'L': [], 'M': []},
+                       'H2': {'R': [['s', 1]], 'L': [['s', 1]], 'M': [], 'C': [['s', 1]]}}
+            events = {'R': {'timeout': 5}}
+        else:
+            scripts = {'H1': {'R': [['cl', cl], ['s', 50]], 'L': [], 'M': []}, 'H2': {'R': [['s', 1]], 'L': [['s', 1]], 'M': []}}
+            events = {}
+        handlers = [typed('b1', 'R', 'H1', hid='h1')] + ([typed('b1', 'R', 'H2', hid='h2')] if nh == 2 else [])
+        handlers += [typed('b1', 'L', 'H2', hid='hl'), wild('b2', 'H2' if src != 'parent' else 'H1', hid='hb2')]
+        d = [['d', 'b1', 'R'], ['d', 'b1', 'L'], ['d', 'b2', 'M']]
+        if src == 'stop':
+            d += [['s', 3], ['stop', 'b1']]
+        d += [['s', 800], ['idle', 'b2', 2000]]
+        out.append(scn([bus('b1', parallel=par), bus('b2')], handlers, scripts, [d], events=events, horizon=8000, tag='cancel_cleanup'))
+    return out
+
+
+def sys_hist_fwd():
+    """C13 eviction order with forwarding: an event forwarded from a hub with a small history is still running on the other bus while its
+    handler there dispatches (and awaits) more events on the hub than the hub's history holds"""
+    out = []
+    for mh, k, awaited, order, first in itertools.product([2, 3, 5], [2, 4, 7], [True, False], ['fwd', 'rev'], [True, False]):
+        j_ops = []
+        for i in range(k):
+            j_ops += [['d', 'b1', 'P']] + ([['a', i]] if awaited else [])
+        j_ops.append(['s', 3])
+        scripts = {'SB': {'J': j_ops, 'P': []}, 'SA': {'P': [], 'J': []}}
+        handlers = ([fwd('b1', 'b2', 'J')] if first else []) + [wild('b1', 'SA', hid='ha')] + ([] if first else [fwd('b1', 'b2', 'J')]) + [wild('b2', 'SB', hid='hb')]
+        d = [['d', 'b1', 'J'], ['a', 0], ['idle', 'b1', 2000], ['idle', 'b2', 2000]]
+        x = scn([bus('b1', maxhist=mh), bus('b2')], handlers, scripts, [d], horizon=6000, tag='hist_fwd')
+        x['busorder'] = order
+        out.append(x)
+    return out
+
+
 def gen_wal(seed):
     rng = random.Random(seed)
     nb = rng.choice([1, 2, 2, 3])
@@ -855,6 +903,13 @@ def sys_par_timeout():
         d = [['d', 'b1', 'R'], ['a', 0], ['idle', 'b1', 3000], ['idle', 'b2', 3000]]
         buses = [bus('b1', parallel=bool(par_b1 or tgt == 'b1')), bus('b2', parallel=True)]
         out.append(scn(buses, handlers, scripts, [d], events={'R': {'timeout': tmo}}, horizon=12000, tag='par_timeout'))
+        if par_b1 and nh == 2 and not grand:
+            # a sibling handler of the awaiting one on the parallel bus times out first (registered before it) while the child is mid-run
+            x = json.loads(json.dumps(out[-1]))
+            x['scripts']['SR0'] = {'R': [['s', 50]]}
+            x['handlers'].insert(0, typed('b1', 'R', 'SR0', hid='hr0'))
+            x['buses'][0]['parallel'] = True
+            out.append(x)
     return out
 
 
@@ -872,6 +927,8 @@ def gen_timeout_par(seed):
 
 
 FAMILIES = {
+    'cancel_cleanup': ('sys', sys_cancel_cleanup),
+    'hist_fwd': ('sys', sys_hist_fwd),
     'lock_wait': ('sys', sys_lock_wait),
     'await_after_stop': ('sys', sys_await_after_stop),
     'timeout_stray': ('sys', sys_timeout_stray),
